@@ -538,6 +538,25 @@ def l_struct_pack(I, args, kw, node):
 
 def l_struct_unpack(I, args, kw, node):
     fmt, data = args
+    from .summaries import SFmtRepeat
+    if isinstance(fmt, SFmtRepeat):
+        sizes = {"B": 1, "H": 2, "L": 4, "I": 4, "Q": 8}
+        w = sizes[fmt.code]
+        big = fmt.prefix in (">", "!")
+        if not (big or fmt.prefix == "<"):
+            raise SymError("struct.unpack native byte order")
+        s = as_sbytes(data)
+        if not I.ctx.branch(L.eq(s.n, fmt.count * w)):
+            raise _sx().SymRaise(struct.error, "unpack requires a buffer of n*%d bytes" % w)
+
+        def item(k, s=s, w=w, big=big):
+            v = 0
+            idx = range(w) if big else reversed(range(w))
+            for t in idx:
+                v = v * 256 + s.at(k * w + t)
+            return v
+
+        return SBytes(fmt.count, item, (0, 1 << (8 * w)), "tuple")
     if not isinstance(fmt, str):
         raise SymError("struct.unpack with symbolic format")
     if isinstance(data, bytes):
